@@ -765,6 +765,11 @@ pub(super) fn to_radix_digits_le(u: &BigUint, radix: u32) -> Vec<u8> {
 }
 
 pub(super) fn to_radix_le(u: &BigUint, radix: u32) -> Vec<u8> {
+    assert!(
+        2 <= radix && radix <= 256,
+        "The radix must be within 2...256"
+    );
+
     if u.is_zero() {
         vec![0]
     } else if radix.is_power_of_two() {
